@@ -9,8 +9,33 @@ pub use core::*;
 #[cfg(feature = "compiled_data")]
 use crate::tzdb::FsTzdbProvider;
 #[cfg(feature = "compiled_data")]
+#[cfg(not(feature = "verif_loom"))]
 use std::sync::{LazyLock, Mutex};
 
 #[cfg(feature = "compiled_data")]
+#[cfg(not(feature = "verif_loom"))]
 pub static TZ_PROVIDER: LazyLock<Mutex<FsTzdbProvider>> =
     LazyLock::new(|| Mutex::new(FsTzdbProvider::default()));
+
+// Verification hooks (off by default; see the `verif_hooks` / `verif_loom` features).
+#[cfg(feature = "verif_loom")]
+mod verif_loom_static {
+    use crate::tzdb::FsTzdbProvider;
+    loom::lazy_static! {
+        pub static ref TZ_PROVIDER: loom::sync::Mutex<FsTzdbProvider> =
+            loom::sync::Mutex::new(FsTzdbProvider::default());
+    }
+}
+#[cfg(feature = "verif_loom")]
+pub use verif_loom_static::TZ_PROVIDER;
+
+#[cfg(feature = "verif_hooks")]
+pub mod verif_hooks {
+    //! Fault injection for verification harnesses.
+
+    /// Acquires the process-wide provider lock and panics while holding it.
+    pub fn panic_while_holding_provider_lock() {
+        let _guard = super::TZ_PROVIDER.lock();
+        panic!("verif_hooks: injected panic while holding TZ_PROVIDER");
+    }
+}
